@@ -60,7 +60,7 @@ func (Prop) Assumptions() []string {
 	}
 }
 
-var opKinds = []string{"create", "create", "create_full", "first", "find", "preload", "preload_all", "joins", "update", "updates", "delete", "delete_pet", "tx", "tx_fail", "assoc_append", "assoc_find", "assoc_count", "note", "note_find", "count", "save", "gadget", "gadget", "dry_gadget", "dry_gadget", "dry_create", "dry_update", "dry_find", "dry_delete",
+var opKinds = []string{"create", "create", "create_full", "create_batches", "first", "find", "preload", "preload_all", "joins", "update", "updates", "delete", "delete_pet", "tx", "tx_fail", "assoc_append", "assoc_find", "assoc_count", "note", "note_find", "count", "save", "gadget", "gadget", "dry_gadget", "dry_gadget", "dry_create", "dry_update", "dry_find", "dry_delete",
 	"assoc_replace", "assoc_clear", "assoc_delete", "assoc_replace_account", "assoc_delete_company", "assoc_replace_langs"}
 
 func (Prop) Gen(r *core.Rand, tier string) interface{} {
@@ -286,6 +286,14 @@ func runOp(db *gorm.DB, t int, op Op) string {
 	case "create_full":
 		u := userFor(t, op.J, true)
 		return out(db.Create(u), renderUser(u))
+	case "create_batches":
+		// three records in batches of two: CreateInBatches wraps the batches in one transaction
+		us := []fam.User{*userFor(t, 0, false), *userFor(t, 1, false), *userFor(t, 2, false)}
+		for i := range us {
+			us[i].ID += 30 // rows of their own
+			us[i].Company, us[i].Pets = nil, nil
+		}
+		return out(db.CreateInBatches(&us, 2), renderUsers(us))
 	case "save":
 		u := userFor(t, op.J, false)
 		u.Age = 60 + op.X
